@@ -139,9 +139,13 @@ type HOpts struct {
 // ExploreScenario explores one scenario exhaustively within the bound and feeds the collector.
 func ExploreScenario(t *testing.T, s *Scenario, o HOpts, c *Collector) {
 	if s.BoundExact > 0 {
+		if o.Bound != s.BoundExact {
+			c.R.Notes = append(c.R.Notes, fmt.Sprintf("scenario family %s is explored with exactly %d deviations whatever the tier's bound", covFamily(s), s.BoundExact))
+		}
 		o.Bound = s.BoundExact
 	}
 	if s.BoundCap > 0 && o.Bound > s.BoundCap {
+		c.R.Notes = append(c.R.Notes, fmt.Sprintf("scenario family %s is capped at %d deviations (the tier's bound is higher)", covFamily(s), s.BoundCap))
 		o.Bound = s.BoundCap
 	}
 	ex := &explore.Explorer{Bound: o.Bound, Shard: o.Shard, Shards: o.Shards}
@@ -236,6 +240,13 @@ func ExploreScenario(t *testing.T, s *Scenario, o HOpts, c *Collector) {
 	if ex.Capped {
 		c.R.Capped = true
 	}
+}
+
+func covFamily(s *Scenario) string {
+	if s.CovName != "" {
+		return s.CovName
+	}
+	return s.Name
 }
 
 func runOf(ch *explore.Chooser) *explore.Run { return ch.Run() }
